@@ -257,5 +257,31 @@ func propTable() map[string]*PropSpec {
 			Outside:     []string{"approval by *another* correct member only (multi-node; see C01 harness)"},
 		}
 	}
+	// ---------------- C09 ----------------
+	{
+		var q, th []RunConfig
+		for _, w := range []int{0, 1, 2, 3} {
+			for me := 1; me <= 3; me++ {
+				for sv := 0; sv <= 1; sv++ {
+					c := rc(fmt.Sprintf("C09_Vote/me=%d/weights=%d/second_view=%d", me, w, sv), ".", "C09_Vote", map[string]int{"me": me, "weights": w, "second_view": sv})
+					th = append(th, c)
+					if (w == 0 && me != 3) || (w == 2 && me == 2 && sv == 1) {
+						q = append(q, c)
+					}
+				}
+			}
+			c := rc(fmt.Sprintf("C09_Leader/weights=%d", w), ".", "C09_Leader", map[string]int{"weights": w})
+			th = append(th, c)
+			if w == 0 || w == 2 {
+				c.RequireReach = []string{"C09.nv.locked"}
+				q = append(q, c)
+			}
+		}
+		t["C09"] = &PropSpec{ID: "C09", Quick: q, Thorough: th,
+			Assumptions: []string{"ideal signature registry, proposal/commitment stubs; committee of 4 with the listed concrete weight vectors ([1,1,1,1],[3,1,1,1],[1,2,3,4],[2,2,1,1])"},
+			Bounds:      []string{"vote side: node 1..3 accepts the view-0 proposal, receives PREPAREs from a symbolic subset, optionally adopts view 1 by an honest locked NEW_VIEW and prepares there from a symbolic subset, then times out; leader side: node 2 as leader of view 2 receives votes of 5 shapes (none / no proof / view-0 proof / view-1 proof / view-1 proof without block) from the three other members in 3 arrival orders"},
+			Outside:     []string{"locks from views above 1; committees other than 4; vote shapes with forged proofs (rejected before counting: C08)"},
+		}
+	}
 	return t
 }
